@@ -154,3 +154,25 @@ class Compiled:
 
 def describe(steps):
     return [[a.name, list(map(str, args))] for a, args in steps]
+
+
+def disjunctive_incdec_trigger(spec) -> bool:
+    """True when some increase / decrease effect has a condition containing a disjunction (or / implies / iff, or a
+    negated conjunction): the DisjunctiveConditionsRemover then emits one copy of the effect per disjunct and the
+    copies all fire when several disjuncts hold (known finding)."""
+
+    def disj(e, neg=False):
+        if not isinstance(e, list) or not e:
+            return False
+        op = e[0]
+        if op in ("implies", "iff"):
+            return True
+        if op == "not":
+            return disj(e[1], not neg)
+        if op in ("or", "exists"):
+            return (not neg) or any(disj(x, neg) for x in e[1:] if isinstance(x, list))
+        if op in ("and", "forall"):
+            return neg or any(disj(x, neg) for x in e[1:] if isinstance(x, list))
+        return False
+
+    return any(e.get("kind") in ("inc", "dec") and e.get("cond") is not None and disj(e["cond"]) for a in spec["actions"] for e in a.get("eff", []))
